@@ -302,7 +302,7 @@ func TestProp(t *testing.T) {
 	}
 	r.Rule("rapid: etype x plaintext length 0..130 biased to block boundaries x usage set (library constants + 127,128,255,256,1024,2^31) x random key/content/confounder x direction {lib->ref, ref->lib, freshness}; every case is a real interop exchange, distinct by (etype,len,usage,direction)")
 	r.Assume("reference implementation ref/krbcrypto validated at start-up against RFC 3961/3962/8009 appendix vectors")
-	r.Rapid("interop", r.N(6000, 40000), func(t *rapid.T) {
+	r.Rapid("interop", r.N(6000, 200000), func(t *rapid.T) {
 		et := kgen.EType(t)
 		c := Case{EType: et, Usage: kgen.Usage(t), Dir: rapid.SampledFrom([]string{"lib2ref", "ref2lib", "lib2ref", "ref2lib", "fresh"}).Draw(t, "dir")}
 		c.Key = hex.EncodeToString(kgen.Key(t, et, "key"))
